@@ -52,7 +52,7 @@ func TestCheck(t *testing.T) {
 		}
 	}()
 	ctx := context.Background()
-	n := int64(cfg.Pick(25, 200))
+	n := int64(cfg.Pick(50, 120))
 	rep.Cases(n, func(idx int64, rng *mon.Rand) {
 		mode := gspec.Mode(idx % 3)
 		spec := gspec.Gen(rng, genOpts(rng, cfg, mode))
